@@ -30,6 +30,12 @@ pub mod rsa;
 pub(crate) mod noise;
 #[cfg(feature = "quic")]
 pub(crate) mod tls;
+/// Verification hooks (re-exports only).
+#[cfg(feature = "verif")]
+pub mod verif {
+    pub use super::noise::{verif_parse_and_verify_peer_id, VERIF_STATIC_KEY_DOMAIN};
+}
+
 pub(crate) mod keys_proto {
     include!(concat!(env!("OUT_DIR"), "/keys_proto.rs"));
 }
